@@ -778,6 +778,45 @@ func backPressureScenario(n int) func() func() []string {
 	}
 }
 
+// twoPollersScenario: one undelivered transaction, asked of its first announcer, with two further
+// announcers waiting; after the timeout both of them are polled at the same time by two threads
+// (two connections' retry timers firing together). In every interleaving exactly one of the two
+// polls may be told to request the transaction: a request is outstanding again from that moment.
+func twoPollersScenario() func() func() []string {
+	return func() func() []string {
+		txm := bitcoin_reader.NewTxManager(txTimeout)
+		txm.SetTxProcessor(&txProc{})
+		txm.GetTxRequests(bg, uuid.New(), 1) // stable names for the bucket locks (see txScenario)
+		tx := txPair[0]
+		id := *tx.TxHash()
+		first, w1, w2 := uuid.New(), uuid.New(), uuid.New()
+		txm.AddTxID(bg, first, id)
+		txm.AddTxID(bg, w1, id)
+		txm.AddTxID(bg, w2, id)
+		vsched.Advance(txTimeout + time.Second)
+		got := [2]int{}
+		for i, w := range []uuid.UUID{w1, w2} {
+			i, w := i, w
+			vsched.GoNamed(fmt.Sprintf("poller%d", i), func() {
+				l, _ := txm.GetTxRequests(bg, w, 100)
+				for _, h := range l {
+					if h == id {
+						got[i]++
+					}
+				}
+			})
+		}
+		return func() []string {
+			var problems []string
+			if n := got[0] + got[1]; n != 1 {
+				problems = append(problems, fmt.Sprintf("requested-twice-in-one-window: two waiting announcers polled at the same time after the timeout were told to request the transaction %d times in total (poller 0: %d, poller 1: %d), want exactly once", n, got[0], got[1]))
+			}
+			label(fmt.Sprintf("poller0=%d poller1=%d", got[0], got[1]))
+			return problems
+		}
+	}
+}
+
 func c06Scenarios(thorough bool) []*scenario {
 	var r []*scenario
 	scripts := [][]string{{"A0"}, {"D0"}, {"A0", "D0"}, {"D0", "A0"}, {"A0", "A0"}, {"D0", "D0"}}
@@ -849,6 +888,7 @@ func c06Scenarios(thorough bool) []*scenario {
 	for mask := 0; mask < 8; mask++ {
 		r = append(r, &scenario{name: fmt.Sprintf("nodemanager/retry-poll/stopping-%03b", mask), bounds: []int{0}, body: mgrPollScenario(mask), steps: 20000000})
 	}
+	r = append(r, &scenario{name: "txmanager/two-pollers-at-once", bounds: []int{0, 1}, body: twoPollersScenario(), steps: 50000})
 	r = append(r, &scenario{name: "txmanager/back-pressure/1010-deliveries-behind-a-stalled-processor", bounds: []int{0}, body: backPressureScenario(1010), steps: 2000000,
 		note: "one canonical schedule apart from the blocking points (vsched.Quiet is not used; the scenario has two threads and the explored choices are who runs when one blocks)"})
 	for _, n := range []int{1, 2} {
